@@ -80,7 +80,7 @@ def bounds(tier):
     return out
 
 
-def shards(tier):
+def _shards_main(tier):
     from mc.ref import rd_terms as T
     b = BOUNDS[tier]
     out = []
@@ -351,7 +351,7 @@ def check_text(acc, r, case):
     w.ordered(regs, "top")
 
 
-def run_shard(shard, tier):
+def _run_shard_main(shard, tier):
     from mc.ref import rd_terms as T
     b = BOUNDS[tier]
     acc = Acc()
@@ -378,7 +378,7 @@ def run_shard(shard, tier):
     return acc.result()
 
 
-def recheck(case, tier):
+def _recheck_main(case, tier):
     from mc.ref import rd_terms as T
     acc = Acc()
     r = T.render(T.from_jsonable(case["term"]), case["layout"])
@@ -401,3 +401,45 @@ def snippet(d):
             "for m in hy.read_many(text): show(m)\n"
             "# C21: each form's region must be exactly its own text (1-based, inclusive) and read back to an equal model;\n"
             "# every child within its parent; sibling forms disjoint and in source order\n")
+
+
+# ---------------------------------------------------------------- reader reuse leg (E2: histories of two reads on ONE reader)
+def shards(tier):
+    return list(_shards_main(tier)) + [["reuse-leg"]]
+
+
+def _reuse_case(acc, t1, t2, how):
+    from mc.ref import rd_reuse
+    fresh, reused = rd_reuse.run_pair(t1, t2, how)
+    acc.states += 1
+    acc.transitions += 2
+    acc.traces += 1
+    acc.evaluations += 2
+    acc.nontrivial += 1
+    acc.outcome("reuse:" + fresh[0] + "/" + reused[0])
+    if fresh[0] == "models" and reused[0] == "models" and fresh != reused:
+        acc.disagree("reused-reader-positions-differ", {"reuse": [t1, t2, how]},
+                     f"after reading {t1!r} ({how}) with a HyReader, reading {t2!r} with the SAME reader gave {str(reused)[:200]}; a fresh reader gives {str(fresh)[:200]}",
+                     sig="reused-reader-positions-differ:" + reused[0], how=how)
+
+
+def run_shard(shard, tier):
+    if shard == ["reuse-leg"]:
+        from mc.util import Acc as _Acc
+        from mc.ref import rd_reuse
+        acc = _Acc()
+        for i, (t1, t2, how) in enumerate(rd_reuse.pairs()):
+            _reuse_case(acc, t1, t2, how)
+            if i % 487 == 0:
+                acc.sample({"first_source": t1, "second_source": t2, "first_read": how})
+        return acc.result()
+    return _run_shard_main(shard, tier)
+
+
+def recheck(case, tier):
+    if "reuse" in case:
+        from mc.util import Acc as _Acc
+        acc = _Acc()
+        _reuse_case(acc, *case["reuse"])
+        return acc.disagreements
+    return _recheck_main(case, tier)
